@@ -19,7 +19,7 @@ ASSUMPTIONS = ["operations inserted with insert_at are not wired to classical re
                "quantum wires only, classical wires must merely stay single paths",
                "group_one_qubit_gates groups unitary one-qubit gates; a Z-measurement ends a run"]
 REQUIRED_CLASSES = {"history": ["insert", "insert2", "remove", "replace", "group", "unwrap", "rmid", "copy", "addreg", "register_adding_add", "edges_ordered_through_classical_wire_only", "user_label",
-                                "same_class_replace_changes_label", "source_checked_after_editing_copy"]}
+                                "same_class_replace_changes_label", "source_checked_after_editing_copy", "edges_listed_in_other_order"]}
 
 UNITARY1 = set(gc.ONE) | {"W"}
 
@@ -379,7 +379,13 @@ def check_history(case, sub="history"):
                 poss.append(i2)
                 cl.add("insert2")
             before = set(circ.dag.nodes)
-            guarded(sub, "plain", circ.insert_at, mk(d, flag), edges)
+            if len(edges) == 2 and step[3] % 2:
+                # "a list of edges relevant for this operation": the order of the list is not part of the contract
+                edges_arg = [edges[1], edges[0]]
+                cl.add("edges_listed_in_other_order")
+            else:
+                edges_arg = list(edges)
+            guarded(sub, "plain", circ.insert_at, mk(d, flag), edges_arg)
             nid = new_node(before)
             M.desc[nid] = d
             M.cwired[nid] = False
